@@ -468,3 +468,13 @@ Example nonvacuous :
   option_map (fun s => (held s, queue (g s))) (run false init nonvacuous_trace)
     = Some ([(2%nat, 3)], [3]).
 Proof. split; vm_compute; reflexivity. Qed.
+
+(* Releasing any id that is not at the head - never issued, issued to somebody else and still
+   queued behind the head, zero or negative - leaves the guard untouched (no hypothesis on who
+   releases what). *)
+Theorem guard_release_non_head_noop reset (s : gst) id :
+  g_head s <> Some id -> g_release reset s id = s.
+Proof.
+  unfold g_head, g_release. destruct (queue s) as [|h t]; intro H; [reflexivity|].
+  destruct (Z.eqb h id) eqn:E; [|reflexivity]. apply Z.eqb_eq in E; subst. congruence.
+Qed.
